@@ -162,7 +162,7 @@ def parse_stdout(path, data):
     return got, bad
 
 
-def one_run(exe, work, rnd, idx, poll, reopen, tail, rotate):
+def one_run(exe, work, rnd, idx, poll, reopen, tail, rotate, race=False):
     d = os.path.join(work, "cli-%d" % idx)
     shutil.rmtree(d, ignore_errors=True)
     os.makedirs(d)
@@ -184,7 +184,8 @@ def one_run(exe, work, rnd, idx, poll, reopen, tail, rotate):
     if tail:
         cmd.append("--tail")
     cmd.append(path)
-    p = subprocess.Popen(cmd, stdout=subprocess.PIPE, stderr=subprocess.PIPE, stdin=subprocess.DEVNULL, cwd=d)
+    env = dict(os.environ, GORACE="halt_on_error=0 exitcode=66") if race else None
+    p = subprocess.Popen(cmd, stdout=subprocess.PIPE, stderr=subprocess.PIPE, stdin=subprocess.DEVNULL, cwd=d, env=env)
     out = Out(p.stdout)
     info = {"cmd": " ".join(cmd[1:]), "notes": [], "fatal": []}
     try:
@@ -242,6 +243,12 @@ def one_run(exe, work, rnd, idx, poll, reopen, tail, rotate):
             p.wait()
         out.t.join(timeout=2.0)
     err = p.stderr.read()
+    if race and b"DATA RACE" in err:
+        txt = err.decode("utf8", "replace")
+        i = txt.find("WARNING: DATA RACE")
+        shutil.rmtree(d, ignore_errors=True)
+        return {"key": "cli-follow-data-race", "kind": "data-race", "cmd": info["cmd"], "report": txt[i:i + 2500],
+                "explanation": "the Go race detector reported a data race in the real CLI while following a file"}, info
     got, bad = parse_stdout(path, out.buf)
     want = expected(path, w.log)
     if workers > 1:
@@ -270,6 +277,7 @@ def one_run(exe, work, rnd, idx, poll, reopen, tail, rotate):
 def run(ctx):
     rnd = Rand(ctx["seed"] * 7919 + 15)
     exe = build_rare(ctx)
+    exe_race = build_rare(ctx, race=True) if ctx["tier"] != "quick" else None
     work = ctx["work"]
     # (poll, reopen, tail, rotate)
     plan = [(False, False, False, False), (False, True, False, True), (False, False, True, False),
@@ -289,7 +297,8 @@ def run(ctx):
     def worker(i):
         poll, reopen, tail, rotate = plan[i]
         try:
-            results[i] = one_run(exe, work, Rand(seeds[i]), i, poll, reopen, tail, rotate)
+            race = exe_race is not None and i >= len(plan) - 8     # the last runs of the thorough tier: -race binary
+            results[i] = one_run(exe_race if race else exe, work, Rand(seeds[i]), i, poll, reopen, tail, rotate, race)
         except Exception as e:   # noqa
             results[i] = ({"key": "cli-follow-harness-error", "kind": "harness-error", "error": repr(e)}, {})
 
@@ -309,6 +318,6 @@ def run(ctx):
             violations.append(v)
         elif len(infos) < 4:
             infos.append(info)
-    return {"runs": done, "violations": violations, "cli_samples": infos,
+    return {"runs": done, "race_runs": 8 if exe_race else 0, "violations": violations, "cli_samples": infos,
             "assumptions": ["CLI follow runs are wall-clock bound: a followed line surfaces only when a later line arrives "
                             "(no timer goroutine), the runs use a sentinel line written > 250 ms later"]}
